@@ -55,6 +55,34 @@ def value_configs(tier):
     return out
 
 
+# macro x ISA pairs: a tuning macro whose effect sits in ISA-specific code (or next to vectorised loops) is combined with EVERY
+# instruction set, on the part of the corpora that can reach that code (varying one factor at a time misses a defect that needs both)
+def _fam(*prefixes):
+    return lambda w: w.family.startswith(prefixes)
+
+
+TARGETED = {
+    'FASTOR_USE_HADD': [(c16, _fam('reduce.norm', 'reduce.inner', 'reduce.sum', 'reduce.product', 'reduce.det', 'reduce.trace')), (c08, _fam('simd.hsum', 'simd.hprod', 'simd.dot')),
+                        (c03, _fam('einsum.inner')), (c09, _fam('lazy.det', 'lazy.norm', 'lazy.trace')), (c01, _fam('matmul.matvec', 'matmul.vecmat'))],
+    'FASTOR_USE_VECTORISED_EXPR_ASSIGN': [(c05, _fam('write.')), (c18, _fam('noalias.', 'perfect_overlap.')), (c19, _fam('index.flat.write', 'index.nd.write'))],
+    'FASTOR_ZERO_INITIALISE': [(c20, _fam('ctor.')), (c08, _fam('simd.copy', 'simd.broadcast', 'simd.set'))],
+    'FASTOR_DISABLE_SPECIALISED_CTR': [(c20, _fam('ctor.')), (c02, _fam('expr.arith'))],
+}
+
+
+def targeted_corpus(macro, tier, seed, isa):
+    W = []
+    for mod, sel in TARGETED[macro]:
+        try:
+            ws = mod.witnesses(tier, seed)
+        except TypeError:
+            ws = mod.witnesses(tier, seed, isa)
+        ws = [w for w in ws if sel(w) and not (w.params or {}).get('or_group') and not in_open_finding_family(w)]
+        cap = 160 if tier == 'quick' else 1200
+        W += ws[::max(1, len(ws) // cap)]
+    return group_sort(W)
+
+
 def acceptance(R, W, tier):
     """every program of the corpus must be accepted by the front end under every cell of ISA x standard x checks"""
     grid = []
@@ -102,6 +130,16 @@ def check(tier, seed):
         viol, obl, ok, ncells = acceptance(R, W, tier)
         cfgs = value_configs(tier)
         R.run_all(W, cfgs, chunk=60)
+        tcache = {}
+        def tw(cfg):
+            m = cfg.macros[0]
+            key = (m, cfg.isa if any(mod is c08 for mod, _ in TARGETED[m]) else '')
+            if key not in tcache:
+                tcache[key] = targeted_corpus(m, tier, seed, cfg.isa)
+            return tcache[key]
+        few = ('sse2', 'avx2', 'avx512')   # macros without ISA-specific arms: three ISAs in the quick tier
+        tcfgs = [Config(isa, macros=(m,)) for m in TARGETED for isa in ALL_ISAS if not (m == 'FASTOR_USE_HADD' and isa == 'scalar') and (tier != 'quick' or m in ('FASTOR_USE_HADD', 'FASTOR_USE_VECTORISED_EXPR_ASSIGN') or isa in few)]
+        R.run_all(tw, tcfgs, chunk=60)
         return finish('C06', tier, seed, R, 'other',
                       rule='(a) acceptance: a covering slice of the witness programs of every other property (%d programs) is type-checked with clang++ -fsyntax-only under a grid of %d cells of {scalar, SSE2, SSE4.2, AVX, AVX2+FMA, AVX-512F, AVX-512, -mno-sse} x {C++14, C++17} x {NDEBUG, debug, runtime checks}; a program rejected under some cells and accepted under others is a violation naming the first diagnostic inside the repository. (b) values: the same programs are lowered and interpreted under %d further configurations — -O0/-O1/-O3, both standards, assertions on, and every documented tuning macro one at a time (FASTOR_USE_HADD, matmul and transpose block sizes 1..5, op-min off, FASTOR_KEEP_DP_FIXED, vectorised view assignment, zero initialisation, specialised constructors off, vectorisation off) — and each final state is compared with the witness oracle (EXACT for integer/boolean cells, ALGEBRAIC with the rounding premises for floating products/sums): agreement of every configuration with one oracle is agreement between configurations.' % (len(set(w.wit_src for w in W)), ncells, len(cfgs)),
                       trusted=['clang-14 front end and code generation at every optimisation level', 'LLVM IR semantics as modelled by irflow', 'x86 lane table', 'the oracles of the other properties'],
